@@ -252,7 +252,10 @@ def _eval_inner(case):
             ck.tol = 1e-11
         full = {}
         for name, opn, wrt, compact in BINARY:
-            J = np.asarray(getattr(a, name)(b), dtype=float)
+            Jraw = getattr(a, name)(b)
+            if not isinstance(Jraw, np.ndarray):
+                ck.msgs.append("%s returned a %s, documented np.ndarray" % (name, type(Jraw).__name__))
+            J = np.asarray(Jraw, dtype=float)
             rows = cpt if compact else amb
             if not ck.shape(name, J, (rows, amb)):
                 continue
@@ -362,6 +365,10 @@ def _eval_inner(case):
         ck = _Ck(sc)
         if case.get("far"):
             ck.tol = 1e-11
+        for name in ("jacobian_self_oplus_point_wrt_self", "jacobian_self_oplus_point_wrt_point"):
+            Jraw = getattr(a, name)(p)
+            if not isinstance(Jraw, np.ndarray):
+                ck.msgs.append("%s returned a %s, documented np.ndarray" % (name, type(Jraw).__name__))
         J1 = np.asarray(a.jacobian_self_oplus_point_wrt_self(p), dtype=float)
         if ck.shape("jacobian_self_oplus_point_wrt_self", J1, (pd, amb)):
             Jb = np.asarray(a.jacobian_boxplus(), dtype=float)
@@ -426,6 +433,10 @@ def _eval_inner(case):
             pass
         if not np.array_equal(np.asarray(getattr(a, name)(), dtype=float), keep):
             ck.msgs.append("%s: editing a returned matrix in place changes what later calls return (shared result object)" % name)
+    for name in ("jacobian_boxplus", "jacobian_inverse"):
+        Jraw = getattr(a, name)()
+        if not isinstance(Jraw, np.ndarray):
+            ck.msgs.append("%s returned a %s, documented np.ndarray" % (name, type(Jraw).__name__))
     Jb = np.asarray(a.jacobian_boxplus(), dtype=float)
     if ck.shape("jacobian_boxplus", Jb, (amb, cpt)):
         for d in range(cpt):
